@@ -419,8 +419,6 @@ def RVal.isNil : RVal → Bool
 def mergeSelectionSets (fields : List FieldNode) : List Selection :=
   fields.flatMap (·.sels)
 
-def firstField (fields : List FieldNode) : Option FieldNode := fields.head?
-
 /-- `newErrorWithPath(fields[0], path, …)`: one location. -/
 def errAt (f : FieldNode) (path : Path) (m : Msg) : Err := { msg := m, path := path, locs := [f.pos] }
 
@@ -446,67 +444,85 @@ def catchIfNullable (t : TypeRef) (o : Out) : Out :=
     | .err e => { o with r := .ok .null, errs := o.errs ++ [e] }
     | _ => o
 
-/-- `future.Join` over ready futures: the first error in index order, else the values. -/
-def joinResults : List R → R
-  | [] => .ok (.arr [])
-  | r :: rest =>
-    match r with
-    | .ok j =>
-      match joinResults rest with
-      | .ok (.arr js) => .ok (.arr (j :: js))
-      | other => other
-    | .err e =>
-      -- an earlier stuck item wins over a later error only if it comes first; a later stuck item
-      -- still makes the whole run stuck (the model never reports a result past a stuck step)
-      match joinResults rest with
-      | .stuck s => .stuck s
-      | _ => .err e
-    | .stuck s => .stuck s
+def R.stuck? : R → Option Stuck
+  | .stuck s => some s
+  | _ => none
+
+def R.err? : R → Option Err
+  | .err e => some e
+  | _ => none
+
+def R.ok? : R → Option Json
+  | .ok j => some j
+  | _ => none
+
+/-- `future.Join` over ready futures: the first error in index order, else the values. (Every item
+    has been completed before `Join` looks at them, so a stuck item makes the whole step stuck.) -/
+def joinResults (rs : List R) : R :=
+  match rs.findSome? R.stuck? with
+  | some s => .stuck s
+  | none =>
+    match rs.findSome? R.err? with
+    | some e => .err e
+    | none => .ok (.arr (rs.filterMap R.ok?))
+
+/-- `executeField`, given the completion function (`completeValue` at the remaining fuel). -/
+def execFieldWith (complete : TypeRef → RVal → Path → Cache → Out)
+    (objVal : RVal) (fields : List FieldNode) (f0 : FieldNode) (fd : FieldDef) (path : Path) (c : Cache) : Out :=
+  match f0.argErr with
+  | some ae => { r := .err { msg := .argCoercion ae.msg, path := path, locs := ae.locs }, errs := [], cache := c }
+  | none =>
+    match resolve objVal f0.wkey with
+    | .err m => { r := .err (resolveErr fields path m), errs := [], cache := c }
+    | .val v => complete fd.type v path c
+
+/-- The loop over `groupedFieldSet.Items()` in `executeSelections`; `acc` is the result map so far
+    (in order), `errs` the errors appended so far. The result map is pre-sized: a slot whose field
+    is not defined on the object type keeps the zero item `("", null)`. Returns at the first failing
+    non-null sibling. `field` is `executeField` for one item. -/
+def execItemsWith (o : ObjT) (path : Path)
+    (field : List FieldNode → FieldNode → FieldDef → Path → Cache → Out) :
+    Grouped → List (String × Json) → List Err → Cache → Out
+  | [], acc, errs, c => { r := .ok (.obj acc), errs := errs, cache := c }
+  | (key, fields) :: rest, acc, errs, c =>
+    match fields.head? with
+    | none => { r := .stuck (.panic "fields[0] of an empty group"), errs := errs, cache := c }
+    | some f0 =>
+      if f0.name == "__typename" then
+        execItemsWith o path field rest (acc ++ [(key, .str o.name)]) errs c
+      else
+        match o.getField f0.name with
+        | none => execItemsWith o path field rest (acc ++ [("", .null)]) errs c
+        | some fd =>
+          let out := catchIfNullable fd.type (field fields f0 fd (path ++ [.key key]) c)
+          match out.r with
+          | .ok j => execItemsWith o path field rest (acc ++ [(key, j)]) (errs ++ out.errs) out.cache
+          | other => { r := other, errs := errs ++ out.errs, cache := out.cache }
+
+/-- The list branch of `completeValue`: every item is completed (a nullable item's error is caught
+    and appended), then `future.Join` reports the first error. `rs` are the item results so far,
+    `item` is `completeValue` at the item type. -/
+def completeItemsWith (inner : TypeRef) (path : Path) (item : RVal → Path → Cache → Out) :
+    List RVal → Nat → List R → List Err → Cache → Out
+  | [], _, rs, errs, c => { r := joinResults rs, errs := errs, cache := c }
+  | v :: rest, i, rs, errs, c =>
+    let out := catchIfNullable inner (item v (path ++ [.idx i]) c)
+    completeItemsWith inner path item rest (i + 1) (rs ++ [out.r]) (errs ++ out.errs) out.cache
 
 mutual
 
-/-- `executeSelections` (ready branch). The result map is pre-sized; a slot whose field is not
-    defined on the object type keeps the zero item `("", null)`. -/
+/-- `executeSelections` (ready branch). -/
 def execSelections (memo : Bool) (S : Schema) (D : Document) :
     Nat → ObjT → List Selection → RVal → Path → Cache → Out
   | 0, _, _, _, _, c => { r := .stuck .outOfFuel, errs := [], cache := c }
   | fuel + 1, o, sels, objVal, path, c =>
     match collectFields memo S D fuel o sels c with
     | .error s => { r := .stuck s, errs := [], cache := c }
-    | .ok (g, c) => execItems memo S D fuel o objVal path g [] [] c
-
-/-- The loop over `groupedFieldSet.Items()`; `acc` is the result map so far (in order), `errs` the
-    errors appended so far. Returns at the first failing non-null sibling. -/
-def execItems (memo : Bool) (S : Schema) (D : Document) :
-    Nat → ObjT → RVal → Path → Grouped → List (String × Json) → List Err → Cache → Out
-  | 0, _, _, _, _, _, errs, c => { r := .stuck .outOfFuel, errs := errs, cache := c }
-  | _ + 1, _, _, _, [], acc, errs, c => { r := .ok (.obj acc), errs := errs, cache := c }
-  | fuel + 1, o, objVal, path, (key, fields) :: rest, acc, errs, c =>
-    match firstField fields with
-    | none => { r := .stuck (.panic "fields[0] of an empty group"), errs := errs, cache := c }
-    | some f0 =>
-      if f0.name == "__typename" then
-        execItems memo S D fuel o objVal path rest (acc ++ [(key, .str o.name)]) errs c
-      else
-        match o.getField f0.name with
-        | none => execItems memo S D fuel o objVal path rest (acc ++ [("", .null)]) errs c
-        | some fd =>
-          let out := catchIfNullable fd.type (execField memo S D fuel objVal fields f0 fd (path ++ [.key key]) c)
-          match out.r with
-          | .ok j => execItems memo S D fuel o objVal path rest (acc ++ [(key, j)]) (errs ++ out.errs) out.cache
-          | other => { r := other, errs := errs ++ out.errs, cache := out.cache }
-
-/-- `executeField`. -/
-def execField (memo : Bool) (S : Schema) (D : Document) :
-    Nat → RVal → List FieldNode → FieldNode → FieldDef → Path → Cache → Out
-  | 0, _, _, _, _, _, c => { r := .stuck .outOfFuel, errs := [], cache := c }
-  | fuel + 1, objVal, fields, f0, fd, path, c =>
-    match f0.argErr with
-    | some ae => { r := .err { msg := .argCoercion ae.msg, path := path, locs := ae.locs }, errs := [], cache := c }
-    | none =>
-      match resolve objVal f0.wkey with
-      | .err m => { r := .err (resolveErr fields path m), errs := [], cache := c }
-      | .val v => completeValue memo S D fuel fd.type fields f0 v path c
+    | .ok (g, c) =>
+      execItemsWith o path
+        (fun fields f0 fd p c =>
+          execFieldWith (fun t v p c => completeValue memo S D fuel t fields f0 v p c) objVal fields f0 fd p c)
+        g [] [] c
 
 /-- `completeValue`. -/
 def completeValue (memo : Bool) (S : Schema) (D : Document) :
@@ -522,7 +538,8 @@ def completeValue (memo : Bool) (S : Schema) (D : Document) :
     | .list inner =>
       if v.isNil then { r := .ok .null, errs := [], cache := c } else
       match v with
-      | .list items => completeItems memo S D fuel inner fields f0 items 0 path [] [] c
+      | .list items =>
+        completeItemsWith inner path (fun v p c => completeValue memo S D fuel inner fields f0 v p c) items 0 [] [] c
       | _ => { r := .err (errAt f0 path .notList), errs := [], cache := c }
     | .named n =>
       if v.isNil then { r := .ok .null, errs := [], cache := c } else
@@ -558,16 +575,6 @@ def completeValue (memo : Bool) (S : Schema) (D : Document) :
           match S.object? tn with
           | none => { r := .stuck (.panic "union member is not an object type"), errs := [], cache := c }
           | some o => execSelections memo S D fuel o (mergeSelectionSets fields) v path c
-
-/-- The list branch of `completeValue`: every item is completed (a nullable item's error is caught
-    and appended), then `future.Join` reports the first error. `rs` are the item results so far. -/
-def completeItems (memo : Bool) (S : Schema) (D : Document) :
-    Nat → TypeRef → List FieldNode → FieldNode → List RVal → Nat → Path → List R → List Err → Cache → Out
-  | 0, _, _, _, _, _, _, _, errs, c => { r := .stuck .outOfFuel, errs := errs, cache := c }
-  | _ + 1, _, _, _, [], _, _, rs, errs, c => { r := joinResults rs, errs := errs, cache := c }
-  | fuel + 1, inner, fields, f0, item :: rest, i, path, rs, errs, c =>
-    let out := catchIfNullable inner (completeValue memo S D fuel inner fields f0 item (path ++ [.idx i]) c)
-    completeItems memo S D fuel inner fields f0 rest (i + 1) path (rs ++ [out.r]) (errs ++ out.errs) out.cache
 
 end
 
@@ -611,5 +618,55 @@ def execute (memo : Bool) (S : Schema) (D : Document) (fuel : Nat) (opName : Str
       | .ok j => .ok { data := some j, errors := out.errs }
       | .err e => .ok { data := none, errors := out.errs ++ [e] }
       | .stuck s => .error s
+
+/-! ## Fuel
+
+  Execution descends through selection sets (at most one level per field node of the document when
+  fragments are acyclic), and within a level through the wrappers of the field's type; collection
+  descends through inline fragments and fragment spreads. `fuelFor` is a bound that suffices for every
+  document whose fragment spreads are acyclic (the driver uses it; insufficient fuel is reported as
+  the distinct outcome `stuck outOfFuel`, never as a result). -/
+
+mutual
+  def Selection.fieldNodes : Selection → Nat
+    | .field _ _ _ _ _ _ sub => 1 + fieldNodesList sub
+    | .spread .. => 0
+    | .inline _ _ _ sub => fieldNodesList sub
+  def fieldNodesList : List Selection → Nat
+    | [] => 0
+    | s :: rest => s.fieldNodes + fieldNodesList rest
+end
+
+mutual
+  def Selection.fragNodes : Selection → Nat
+    | .field _ _ _ _ _ _ sub => fragNodesList sub
+    | .spread .. => 1
+    | .inline _ _ _ sub => 1 + fragNodesList sub
+  def fragNodesList : List Selection → Nat
+    | [] => 0
+    | s :: rest => s.fragNodes + fragNodesList rest
+end
+
+def TypeRef.wrappers : TypeRef → Nat
+  | .named _ => 0
+  | .list t => 1 + t.wrappers
+  | .nonNull t => 1 + t.wrappers
+
+def TypeDef.maxWrappers : TypeDef → Nat
+  | .object fs _ => fs.foldl (fun m f => max m f.type.wrappers) 0
+  | .interface fs => fs.foldl (fun m f => max m f.type.wrappers) 0
+  | _ => 0
+
+def Schema.maxWrappers (S : Schema) : Nat :=
+  S.types.foldl (fun m p => max m p.2.maxWrappers) 0
+
+def Document.fieldNodes (D : Document) : Nat :=
+  D.ops.foldl (fun n op => n + fieldNodesList op.sels) 0 + D.frags.foldl (fun n f => n + fieldNodesList f.sels) 0
+
+def Document.fragNodes (D : Document) : Nat :=
+  D.ops.foldl (fun n op => n + fragNodesList op.sels) 0 + D.frags.foldl (fun n f => n + fragNodesList f.sels) 0
+
+def fuelFor (S : Schema) (D : Document) : Nat :=
+  (D.fieldNodes + 2) * (S.maxWrappers + 3) + D.fragNodes + D.frags.length + 2
 
 end ApiFu.C01
